@@ -104,9 +104,9 @@ class X509(object):
         if self.sigalg == RSA_PSS_OID:
             sigalg_hash = signature_algorithm_identifier.getChild(1)
             sigalg_hash = bytes(sigalg_hash.getChild(0).value)
-            self.sigalg = AlgorithmOID.oid[sigalg_hash]
+            self.sigalg = AlgorithmOID.oid.get(sigalg_hash)
         else:
-            self.sigalg = AlgorithmOID.oid[self.sigalg]
+            self.sigalg = AlgorithmOID.oid.get(self.sigalg)
 
         # Get the tbsCertificate
         tbs_certificate = parser.getChild(0)
